@@ -116,9 +116,37 @@ def deref_all(t):
     return t
 
 
+def _is_int_tryfrom(name):
+    return isinstance(name, str) and name.endswith('::try_from') and 'TryFrom<' in name and 'convert::num' in name
+
+
+def _is_int_from(name):
+    return isinstance(name, str) and (name.endswith('::from') or name.endswith('::into')) and 'convert::num' in name
+
+
 def strip_casts(t):
-    while isinstance(t, tuple) and t and t[0] == 'cast' and t[1] in ('IntToInt',):
-        t = t[2]
+    """The integer value a term denotes, looking through conversions that keep it: `as` between integer types, and the lossless /
+    checked conversions `N::from(x)`, `x.into()`, `N::try_from(x).unwrap()` / `.expect(..)` / matched `Ok(v)`."""
+    while isinstance(t, tuple) and t:
+        if t[0] == 'cast' and t[1] in ('IntToInt',):
+            t = t[2]
+            continue
+        if t[0] == 'call' and t[2]:
+            last = t[1].rsplit('::', 1)[-1]
+            a0 = t[2][0]
+            while isinstance(a0, tuple) and a0 and a0[0] in ('ref', 'deref'):
+                a0 = a0[1]
+            if last in ('unwrap', 'expect', 'unwrap_unchecked') and isinstance(a0, tuple) and a0 and a0[0] == 'call' and _is_int_tryfrom(a0[1]) and len(a0[2]) == 1:
+                t = a0[2][0]
+                continue
+            if _is_int_from(t[1]) and len(t[2]) == 1:
+                t = t[2][0]
+                continue
+        if t[0] == 'field' and isinstance(t[1], tuple) and t[1] and t[1][0] == 'downcast' and t[1][2] == 'Ok' and isinstance(t[1][1], tuple) and t[1][1] and t[1][1][0] == 'call' \
+                and _is_int_tryfrom(t[1][1][1]) and len(t[1][1][2]) == 1:
+            t = t[1][1][2][0]
+            continue
+        break
     return t
 
 
